@@ -142,6 +142,9 @@ func (h *c11H) Run(id int) {
 	cfg := h.cfg
 	p := h.pools[id]
 	want := header{cfg.C, dyn.Types[h.t].Bits, cfg.C * cfg.L, cfg.C * cfg.K, cfg.L, cfg.K}
+	if cfg.C == 0 {
+		want.Length, want.Capacity = 0, 0 // a pool of buffers without channels: nothing to hold
+	}
 	for c := 0; c < cfg.M; c++ {
 		h.progress(id, c, len(h.fails[id]))
 		schedx.Point("get")
@@ -342,6 +345,8 @@ func c11Configs(tier string, race bool) []c11Cfg {
 	for _, bv := range []bool{false, true} {
 		r = append(r, c11Cfg{T: "float64", C: 2, L: 1, K: 2, G: 2, M: 2, ByValue: bv, Bound: -1, Shrink: true}, c11Cfg{T: "int16", C: 1, L: 3, K: 4, G: 2, M: 2, ByValue: bv, Bound: 2, Shrink: true})
 	}
+	// a pool whose allocator has no channels (and a capacity all the same)
+	r = append(r, c11Cfg{T: "int8", C: 0, L: 0, K: 3, G: 2, M: 1, Bound: 1})
 	// two buffers of the pool held at a time, one appended to the other
 	r = append(r, c11Cfg{T: "int8", C: 1, L: 0, K: 2, G: 2, M: 2, Bound: 1, Pair: true}, c11Cfg{T: "float64", C: 2, L: 0, K: 3, G: 2, M: 1, ByValue: true, Bound: 1, Pair: true})
 	// only a window of each buffer is kept, with a garbage collection while it is held
